@@ -106,8 +106,9 @@ theorem percentEncode_is_rfc3986 (b : Str) (hb : Bytes b) :
 
 /-! ## The `type` table of the `matrix:` scheme -/
 
-/-- The types written by `to_string_with_type` and read by `parse_with_type` are the Matrix spec's
-table (`u` ↔ `@`, `r` ↔ `#`, `roomid` ↔ `!`, `e` ↔ `$`). -/
+/-- The types **read** by `parse_with_type` (the model's `sigilOfType`) are the Matrix spec's table
+(`u` ↔ `@`, `r` ↔ `#`, `roomid` ↔ `!`, `e` ↔ `$`), plus the legacy spellings. The write side
+(`to_string_with_type`) is `written_types_eq_spec` below. -/
 theorem type_table_eq_spec :
     (∀ sg ty, typeOfSigil sg = some ty → sigilOfType ty = some sg) ∧
     sigilOfType (bs "user") = some sigilUser ∧ sigilOfType (bs "room") = some sigilAlias ∧
@@ -117,6 +118,28 @@ theorem type_table_eq_spec :
   unfold typeOfSigil at h
   repeat' split at h
   all_goals first | (cases h; subst_vars; decide) | cases h
+
+/-- The types **written** by `to_string_with_type` are the Matrix spec's table: for an identifier
+carrying its sigil (any rest `t`, `e`), the text is the spec's type for that sigil, `/`, and the
+percent-encoded identifier without its sigil; an event is written after its room (`!` or `#`) as
+`/` + the spec's type for `$` + `/` + the encoded event id without sigil. -/
+theorem written_types_eq_spec (t e : Str) :
+    (∃ ty, typeOfSigil sigilUser = some ty ∧
+      toStringWithType (.user (sigilUser :: t)) = .ok (ty ++ 47 :: encPath t)) ∧
+    (∃ ty, typeOfSigil sigilAlias = some ty ∧
+      toStringWithType (.roomAlias (sigilAlias :: t)) = .ok (ty ++ 47 :: encPath t)) ∧
+    (∃ ty, typeOfSigil sigilRoomId = some ty ∧
+      toStringWithType (.room (sigilRoomId :: t)) = .ok (ty ++ 47 :: encPath t)) ∧
+    (∃ ty te, typeOfSigil sigilRoomId = some ty ∧ typeOfSigil sigilEvent = some te ∧
+      toStringWithType (.event (sigilRoomId :: t) (sigilEvent :: e)) =
+        .ok (ty ++ 47 :: encPath t ++ 47 :: te ++ 47 :: encPath e)) ∧
+    (∃ ty te, typeOfSigil sigilAlias = some ty ∧ typeOfSigil sigilEvent = some te ∧
+      toStringWithType (.event (sigilAlias :: t) (sigilEvent :: e)) =
+        .ok (ty ++ 47 :: encPath t ++ 47 :: te ++ 47 :: encPath e)) := by
+  refine ⟨⟨bs "u", by decide, rfl⟩, ⟨bs "r", by decide, rfl⟩, ⟨bs "roomid", by decide, rfl⟩,
+    ⟨bs "roomid", bs "e", by decide, by decide, ?_⟩, ⟨bs "r", bs "e", by decide, by decide, ?_⟩⟩
+  · simp [toStringWithType, sigilRoomId, bs]
+  · simp [toStringWithType, sigilAlias, bs]
 
 /-! ## Round trips -/
 
@@ -134,7 +157,11 @@ theorem matrixUri_roundtrip (U : UrlParser) (hU : UrlKeepsSafeText U) (V : Valid
     ∃ text, formatUri u = .ok text ∧ parseUri U V text = .ok u :=
   parseUri_formatUri U hU V u h
 
-/-- Parsing never panics: for every byte string, every `V`, every behaviour of `Url::parse`. -/
+/-- Parsing never panics: for every byte string, every `V`, every behaviour of `Url::parse`.
+Reading note: the model's parse functions have almost no `.panic` arm (the Rust parse paths contain
+no index/slice/unwrap site that the model had to render as one; only the dead `splitOn … = []` arm),
+so on the model this holds nearly by construction. That the real parsers do not panic on the
+generated and mutated texts is checked by the T2/T3 tie (a panic of the real code is a violation). -/
 theorem parse_never_panics (U : UrlParser) (V : Validators) (s : Str) :
     parseTo V s ≠ .panic ∧ parseUri U V s ≠ .panic ∧
     parseWithSigil V s ≠ .panic ∧ parseWithType V s ≠ .panic :=
@@ -227,6 +254,7 @@ example : parseUri urlParseRef exV (bs "matrix:roomid/") = .ok ⟨.room (bs "!")
 #print axioms percentDecode_denotes
 #print axioms percentEncode_is_rfc3986
 #print axioms type_table_eq_spec
+#print axioms written_types_eq_spec
 #print axioms matrixTo_roundtrip
 #print axioms matrixUri_roundtrip
 #print axioms parse_never_panics
